@@ -72,7 +72,7 @@ def _case(draw):
         for g in spec["glyphs"]:
             g["height"] = draw(st.sampled_from([1000, 1000, 900, 0, 1000.5]))
             if draw(st.sampled_from([True, False, False])):
-                g["verticalOrigin"] = draw(st.sampled_from([880, 880, 800, 750.5]))
+                g["verticalOrigin"] = draw(st.sampled_from([880, 880, 800, 750.5, 0, 0.4]))
     flavour = draw(st.sampled_from(["ttf", "cff", "cff2"]))
     positive = spec.pop("_positive", False)
     case = {"spec": spec, "module": draw(st.sampled_from(["ufoLib2", "defcon"])), "flavour": flavour}
